@@ -81,7 +81,7 @@ theorem copy_of_content {src tgt : Mgr} (hsrc : Inv src) (ht : Inv tgt) {c c' : 
     (hc : (c, i) ∈ src.formulae) (hc' : (c', j) ∈ tgt.formulae) (hshape : c'.shape = c.shape)
     (g : Nid → Nid) (hids : c'.ids = c.ids.map g) (hg : ∀ a ∈ c.ids, Copy src tgt a (g a)) :
     Copy src tgt i j := by
-  refine ⟨(ht.range _ _ hc').1, (ht.range _ _ hc').2, ?_⟩
+  refine ⟨(hsrc.range _ _ hc).1, (hsrc.range _ _ hc).2, (ht.range _ _ hc').1, (ht.range _ _ hc').2, ?_⟩
   rw [struct_eq hsrc hc, struct_eq ht hc', hshape, hids, List.map_map]
   congr 1
   apply List.map_congr_left
@@ -122,11 +122,11 @@ theorem shape_map (nt : Nat) (args : List Nid) (pl : Payload) (g : Nid → Nid) 
 
 /-- (A)+(B)+(D)+(E)+(F): the callback is `create_node` on the rebuilt children with the
     same payload (which holds no node) -/
-theorem recSpec_create {src : Mgr} (hsrc : Inv src) (addr : Nid → Nat) {nt : Nat} {args : List Nid} {pl : Payload}
+theorem recSpec_create {src : Mgr} (hsrc : Inv src) (addr : Nid → Nat) (same : Bool) {nt : Nat} {args : List Nid} {pl : Payload}
     {i : Nid} (hpl : pl.ids = [])
     (hrec : ∀ g : Nid → Nid, reconstruct src addr ⟨nt, args, pl⟩ (args.map g) = create ⟨nt, args.map g, pl⟩) :
-    RecSpec src addr ⟨nt, args, pl⟩ i := by
-  intro hc tgt g ht hg r tgt' hrun
+    RecSpec src addr same ⟨nt, args, pl⟩ i := by
+  intro hc tgt g ht _ hg r tgt' hrun
   rw [show (Content.mk nt args pl).args = args from rfl, hrec g] at hrun
   have hsm := shape_map nt args pl g hpl
   exact create_copy hsrc ht hc hsm.1 g hsm.2
@@ -144,33 +144,33 @@ theorem reconstruct_plain {nt : Nat} (h : nt ∈ plainNTs) (src : Mgr) (addr : N
   rcases h with rfl | rfl | rfl | rfl | rfl | rfl | rfl | rfl | rfl | rfl | rfl | rfl | rfl | rfl | rfl | rfl |
     rfl | rfl | rfl | rfl | rfl | rfl | rfl | rfl <;> simp +decide [reconstruct]
 
-theorem recSpec_plain {src : Mgr} (hsrc : Inv src) (addr : Nid → Nat) {nt : Nat} (h : nt ∈ plainNTs)
-    (args : List Nid) (i : Nid) : RecSpec src addr ⟨nt, args, .none⟩ i :=
-  recSpec_create hsrc addr rfl (fun g => by rw [reconstruct_plain h]; rfl)
+theorem recSpec_plain {src : Mgr} (hsrc : Inv src) (addr : Nid → Nat) (same : Bool) {nt : Nat} (h : nt ∈ plainNTs)
+    (args : List Nid) (i : Nid) : RecSpec src addr same ⟨nt, args, .none⟩ i :=
+  recSpec_create hsrc addr same rfl (fun g => by rw [reconstruct_plain h]; rfl)
 
 /-- `And/Or/Plus/Times` nodes have at least two children -/
-theorem recSpec_nary {src : Mgr} (hsrc : Inv src) (addr : Nid → Nat) {nt : Nat}
+theorem recSpec_nary {src : Mgr} (hsrc : Inv src) (addr : Nid → Nat) (same : Bool) {nt : Nat}
     (h : nt = NT.AND ∨ nt = NT.OR ∨ nt = NT.PLUS ∨ nt = NT.TIMES) (a b : Nid) (t : List Nid) (i : Nid) :
-    RecSpec src addr ⟨nt, a :: b :: t, .none⟩ i :=
-  recSpec_create hsrc addr rfl (fun g => by
+    RecSpec src addr same ⟨nt, a :: b :: t, .none⟩ i :=
+  recSpec_create hsrc addr same rfl (fun g => by
     rcases h with rfl | rfl | rfl | rfl <;>
       simp +decide [reconstruct, mkAnd, mkOr, mkPlus, mkTimes, mkNary])
 
-theorem recSpec_strConcat {src : Mgr} (hsrc : Inv src) (addr : Nid → Nat) (a b : Nid) (t : List Nid) (i : Nid) :
-    RecSpec src addr ⟨NT.STR_CONCAT, a :: b :: t, .none⟩ i :=
-  recSpec_create hsrc addr rfl (fun g => by simp +decide [reconstruct, mkStrConcat])
+theorem recSpec_strConcat {src : Mgr} (hsrc : Inv src) (addr : Nid → Nat) (same : Bool) (a b : Nid) (t : List Nid) (i : Nid) :
+    RecSpec src addr same ⟨NT.STR_CONCAT, a :: b :: t, .none⟩ i :=
+  recSpec_create hsrc addr same rfl (fun g => by simp +decide [reconstruct, mkStrConcat])
 
-theorem recSpec_algebraic {src : Mgr} (hsrc : Inv src) (addr : Nid → Nat) (tag : String) (i : Nid) :
-    RecSpec src addr ⟨NT.ALGEBRAIC_CONSTANT, [], .alg tag⟩ i :=
-  recSpec_create hsrc addr rfl (fun g => by simp +decide [reconstruct])
+theorem recSpec_algebraic {src : Mgr} (hsrc : Inv src) (addr : Nid → Nat) (same : Bool) (tag : String) (i : Nid) :
+    RecSpec src addr same ⟨NT.ALGEBRAIC_CONSTANT, [], .alg tag⟩ i :=
+  recSpec_create hsrc addr same rfl (fun g => by simp +decide [reconstruct])
 
-theorem recSpec_bvComp {src : Mgr} (hsrc : Inv src) (addr : Nid → Nat) (x y : Nid) (i : Nid) :
-    RecSpec src addr ⟨NT.BV_COMP, [x, y], .nums [1]⟩ i :=
-  recSpec_create hsrc addr rfl (fun g => by simp +decide [reconstruct, mkBVComp])
+theorem recSpec_bvComp {src : Mgr} (hsrc : Inv src) (addr : Nid → Nat) (same : Bool) (x y : Nid) (i : Nid) :
+    RecSpec src addr same ⟨NT.BV_COMP, [x, y], .nums [1]⟩ i :=
+  recSpec_create hsrc addr same rfl (fun g => by simp +decide [reconstruct, mkBVComp])
 
-theorem recSpec_bvConst {src : Mgr} (hsrc : Inv src) (addr : Nid → Nat) {v w : Nat} (h : v < 2 ^ w) (i : Nid) :
-    RecSpec src addr ⟨NT.BV_CONSTANT, [], .bv v w⟩ i :=
-  recSpec_create hsrc addr rfl (fun g => by
+theorem recSpec_bvConst {src : Mgr} (hsrc : Inv src) (addr : Nid → Nat) (same : Bool) {v w : Nat} (h : v < 2 ^ w) (i : Nid) :
+    RecSpec src addr same ⟨NT.BV_CONSTANT, [], .bv v w⟩ i :=
+  recSpec_create hsrc addr same rfl (fun g => by
     have h1 : ¬ ((v : Int) < 0) := by omega
     have h2 : ¬ ((v : Int) ≥ 2 ^ w) := by
       have : ((2 ^ w : Nat) : Int) = (2 : Int) ^ w := by simp
@@ -188,9 +188,9 @@ theorem prim_copy {src tgt : Mgr} (hsrc : Inv src) {c : Content} {i : Nid}
   have hr := hsrc.range _ _ hc
   exact ⟨hspec.inv, hspec.ext, newCopies_of_step hr.1 hr.2 hnext hcp, hcp⟩
 
-theorem recSpec_real {src : Mgr} (hsrc : Inv src) (addr : Nid → Nat) (q : Rat) (i : Nid) :
-    RecSpec src addr ⟨NT.REAL_CONSTANT, [], .rat q⟩ i := by
-  intro hc tgt g ht _ r tgt' hrun
+theorem recSpec_real {src : Mgr} (hsrc : Inv src) (addr : Nid → Nat) (same : Bool) (q : Rat) (i : Nid) :
+    RecSpec src addr same ⟨NT.REAL_CONSTANT, [], .rat q⟩ i := by
+  intro hc tgt g ht _ _ r tgt' hrun
   have hrec : reconstruct src addr ⟨NT.REAL_CONSTANT, [], .rat q⟩ ([].map g) = mkReal (.frac q) := by
     simp +decide [reconstruct]
   rw [show (Content.mk NT.REAL_CONSTANT [] (.rat q)).args = [] from rfl, hrec, mkReal, prim_run] at hrun
@@ -204,9 +204,9 @@ theorem recSpec_real {src : Mgr} (hsrc : Inv src) (addr : Nid → Nat) (q : Rat)
   subst hq'
   exact hm
 
-theorem recSpec_int {src : Mgr} (hsrc : Inv src) (addr : Nid → Nat) (n : Int) (i : Nid) :
-    RecSpec src addr ⟨NT.INT_CONSTANT, [], .int n⟩ i := by
-  intro hc tgt g ht _ r tgt' hrun
+theorem recSpec_int {src : Mgr} (hsrc : Inv src) (addr : Nid → Nat) (same : Bool) (n : Int) (i : Nid) :
+    RecSpec src addr same ⟨NT.INT_CONSTANT, [], .int n⟩ i := by
+  intro hc tgt g ht _ _ r tgt' hrun
   have hrec : reconstruct src addr ⟨NT.INT_CONSTANT, [], .int n⟩ ([].map g) = mkInt (.int n) := by
     simp +decide [reconstruct]
   rw [show (Content.mk NT.INT_CONSTANT [] (.int n)).args = [] from rfl, hrec, mkInt, prim_run] at hrun
@@ -219,9 +219,9 @@ theorem recSpec_int {src : Mgr} (hsrc : Inv src) (addr : Nid → Nat) (n : Int) 
   cases hm1
   exact hm
 
-theorem recSpec_str {src : Mgr} (hsrc : Inv src) (addr : Nid → Nat) (x : String) (i : Nid) :
-    RecSpec src addr ⟨NT.STR_CONSTANT, [], .str x⟩ i := by
-  intro hc tgt g ht _ r tgt' hrun
+theorem recSpec_str {src : Mgr} (hsrc : Inv src) (addr : Nid → Nat) (same : Bool) (x : String) (i : Nid) :
+    RecSpec src addr same ⟨NT.STR_CONSTANT, [], .str x⟩ i := by
+  intro hc tgt g ht _ _ r tgt' hrun
   have hrec : reconstruct src addr ⟨NT.STR_CONSTANT, [], .str x⟩ ([].map g) = mkString (.str x) := by
     simp +decide [reconstruct]
   rw [show (Content.mk NT.STR_CONSTANT [] (.str x)).args = [] from rfl, hrec, mkString, prim_run] at hrun
@@ -231,9 +231,9 @@ theorem recSpec_str {src : Mgr} (hsrc : Inv src) (addr : Nid → Nat) (x : Strin
   rw [hrun] at hsp hn
   exact prim_copy hsrc hc rfl hsp.1 hn (fun j hj => hsp.2 j hj)
 
-theorem recSpec_bool {src : Mgr} (hsrc : Inv src) (addr : Nid → Nat) (b : Bool) (i : Nid) :
-    RecSpec src addr ⟨NT.BOOL_CONSTANT, [], .bool b⟩ i := by
-  intro hc tgt g ht _ r tgt' hrun
+theorem recSpec_bool {src : Mgr} (hsrc : Inv src) (addr : Nid → Nat) (same : Bool) (b : Bool) (i : Nid) :
+    RecSpec src addr same ⟨NT.BOOL_CONSTANT, [], .bool b⟩ i := by
+  intro hc tgt g ht _ _ r tgt' hrun
   have hrec : reconstruct src addr ⟨NT.BOOL_CONSTANT, [], .bool b⟩ ([].map g) =
       pure (if b then trueId else falseId) := by
     simp +decide [reconstruct, mkBool]
@@ -252,7 +252,8 @@ theorem recSpec_bool {src : Mgr} (hsrc : Inv src) (addr : Nid → Nat) (b : Bool
 theorem copySymbol_spec {src tgt : Mgr} (hsrc : Inv src) (ht : Inv tgt) {n : String} {t : Ty} {i : Nid}
     (hc : (symC n t, i) ∈ src.formulae) {r : Except Err Nid} {tgt' : Mgr}
     (hrun : (copySymbol (symC n t)).run tgt = (r, tgt')) :
-    Inv tgt' ∧ Ext tgt tgt' ∧ NewCopies src tgt tgt' ∧ ∀ j, r = .ok j → Copy src tgt' i j := by
+    Inv tgt' ∧ Ext tgt tgt' ∧ NewCopies src tgt tgt' ∧
+      ∀ j, r = .ok j → Copy src tgt' i j ∧ (symC n t, j) ∈ tgt'.formulae := by
   simp only [copySymbol, symC, Prog.run, Prim.exec] at hrun
   have h1 := internTyPrim_spec t tgt ht
   cases hi : internTyPrim t tgt with
@@ -275,16 +276,258 @@ theorem copySymbol_spec {src tgt : Mgr} (hsrc : Inv src) (ht : Inv tgt) {n : Str
       have hn := symbolPrim_next n t t1
       rw [hrun] at hsp hn
       have hres := prim_copy hsrc hc rfl hsp.1 hn (fun j hj => hsp.2 j hj)
-      refine ⟨hres.1, h1.ext.trans hres.2.1, ?_, hres.2.2.2⟩
+      refine ⟨hres.1, h1.ext.trans hres.2.1, ?_, fun j hj => ⟨hres.2.2.2 j hj, hsp.2 j hj⟩⟩
       intro b hb1 hb2
       exact hres.2.2.1 b (by omega) hb2
 
-theorem recSpec_symbol {src : Mgr} (hsrc : Inv src) (addr : Nid → Nat) (n : String) (t : Ty) (i : Nid) :
-    RecSpec src addr ⟨NT.SYMBOL, [], .sym n t⟩ i := by
-  intro hc tgt g ht _ r tgt' hrun
+theorem recSpec_symbol {src : Mgr} (hsrc : Inv src) (addr : Nid → Nat) (same : Bool) (n : String) (t : Ty) (i : Nid) :
+    RecSpec src addr same ⟨NT.SYMBOL, [], .sym n t⟩ i := by
+  intro hc tgt g ht _ _ r tgt' hrun
   have hrec : reconstruct src addr ⟨NT.SYMBOL, [], .sym n t⟩ ([].map g) = copySymbol (symC n t) := by
     simp +decide [reconstruct, symC]
   rw [show (Content.mk NT.SYMBOL [] (.sym n t)).args = [] from rfl, hrec] at hrun
-  exact copySymbol_spec hsrc ht hc hrun
+  have := copySymbol_spec hsrc ht hc hrun
+  exact ⟨this.1, this.2.1, this.2.2.1, fun j hj => (this.2.2.2 j hj).1⟩
+
+/-! ### list-based variant (payload nodes are not images of a function of the children) -/
+
+inductive All₂ {α β : Type} (R : α → β → Prop) : List α → List β → Prop
+  | nil : All₂ R [] []
+  | cons {a b l l'} : R a b → All₂ R l l' → All₂ R (a :: l) (b :: l')
+
+theorem All₂.length_eq {α β : Type} {R : α → β → Prop} : ∀ {l : List α} {l' : List β}, All₂ R l l' → l.length = l'.length
+  | _, _, .nil => rfl
+  | _, _, .cons _ t => by simp [All₂.length_eq t]
+
+theorem forall₂_struct {src tgt : Mgr} : ∀ {l l' : List Nid}, All₂ (Copy src tgt) l l' →
+    l'.map tgt.struct = l.map src.struct
+  | _, _, .nil => rfl
+  | _, _, .cons h t => by simp [h.eq, forall₂_struct t]
+
+theorem copy_of_content₂ {src tgt : Mgr} (hsrc : Inv src) (ht : Inv tgt) {c c' : Content} {i j : Nid}
+    (hc : (c, i) ∈ src.formulae) (hc' : (c', j) ∈ tgt.formulae) (hshape : c'.shape = c.shape)
+    (hids : All₂ (Copy src tgt) c.ids c'.ids) : Copy src tgt i j := by
+  refine ⟨(hsrc.range _ _ hc).1, (hsrc.range _ _ hc).2, (ht.range _ _ hc').1, (ht.range _ _ hc').2, ?_⟩
+  rw [struct_eq hsrc hc, struct_eq ht hc', hshape, forall₂_struct hids]
+
+theorem forall₂_mono {src tgt tgt' : Mgr} (ht : Inv tgt) (ht' : Inv tgt') (he : Ext tgt tgt') :
+    ∀ {l l' : List Nid}, All₂ (Copy src tgt) l l' → All₂ (Copy src tgt') l l'
+  | _, _, .nil => .nil
+  | _, _, .cons h t => .cons (h.mono ht ht' he) (forall₂_mono ht ht' he t)
+
+theorem create_copy₂ {src tgt : Mgr} (hsrc : Inv src) (ht : Inv tgt) {c c' : Content} {i : Nid}
+    (hc : (c, i) ∈ src.formulae) (hshape : c'.shape = c.shape)
+    (hids : All₂ (Copy src tgt) c.ids c'.ids)
+    {r : Except Err Nid} {tgt' : Mgr} (hrun : (create c').run tgt = (r, tgt')) :
+    Inv tgt' ∧ Ext tgt tgt' ∧ NewCopies src tgt tgt' ∧ ∀ j, r = .ok j → Copy src tgt' i j := by
+  rw [create_run] at hrun
+  have hspec := createNode_spec c' tgt ht
+  have hnext := createNode_next c' tgt
+  rw [hrun] at hspec hnext
+  obtain ⟨hi', he, hmem, _⟩ := hspec
+  have hcp : ∀ j, r = .ok j → Copy src tgt' i j := by
+    intro j hj
+    exact copy_of_content₂ hsrc hi' hc (hmem j hj) hshape (forall₂_mono ht hi' he hids)
+  have hr := hsrc.range _ _ hc
+  exact ⟨hi', he, newCopies_of_step hr.1 hr.2 hnext hcp, hcp⟩
+
+theorem forall₂_of_map {src tgt : Mgr} (g : Nid → Nid) : ∀ (l : List Nid), (∀ a ∈ l, Copy src tgt a (g a)) →
+    All₂ (Copy src tgt) l (l.map g)
+  | [], _ => .nil
+  | a :: t, h => .cons (h a (by simp)) (forall₂_of_map g t (fun x hx => h x (List.mem_cons_of_mem _ hx)))
+
+/-- `Not` nodes never have a `Not` child (the constructor removes double negation) -/
+theorem recSpec_not {src : Mgr} (hsrc : Inv src) (addr : Nid → Nat) (same : Bool) (a : Nid) (i : Nid)
+    (hna : ∀ ca, (ca, a) ∈ src.formulae → ca.nodeType ≠ NT.NOT) :
+    RecSpec src addr same ⟨NT.NOT, [a], .none⟩ i := by
+  intro hc tgt g ht _ hg r tgt' hrun
+  have hcp := hg a (by simp)
+  have hcl := hsrc.closed _ _ hc a (by simp [Content.ids])
+  obtain ⟨ca, hca⟩ := hsrc.full a hcl.1 (Nat.lt_trans hcl.2 (hsrc.range _ _ hc).2)
+  obtain ⟨cb, hcb⟩ := ht.full (g a) hcp.pos hcp.lt
+  have hsh := shape_of_struct_eq hsrc ht hca hcb hcp.eq
+  have hnt : cb.nodeType ≠ NT.NOT := by
+    have : cb.shape.nodeType = ca.shape.nodeType := by rw [hsh]
+    have : cb.nodeType = ca.nodeType := this
+    rw [this]; exact hna ca hca
+  have hrec : (reconstruct src addr ⟨NT.NOT, [a], .none⟩ ([a].map g)).run tgt =
+      (create ⟨NT.NOT, [g a], .none⟩).run tgt := by
+    have : reconstruct src addr ⟨NT.NOT, [a], .none⟩ ([a].map g) = mkNot (g a) := by
+      simp +decide [reconstruct]
+    rw [this]
+    show ((getC (g a)).bind _).run tgt = _
+    rw [getC_run (content?_of_mem ht hcb)]
+    simp [hnt]
+  rw [show (Content.mk NT.NOT [a] .none).args = [a] from rfl, hrec] at hrun
+  exact create_copy₂ hsrc ht hc (by simp [Content.shape]) (by
+    simpa [Content.ids, Payload.ids] using (All₂.cons hcp .nil)) hrun
+
+/-- `walk_symbol` over the bound variables of a quantifier -/
+theorem copySymbols_spec {src : Mgr} (hsrc : Inv src) : ∀ (vs : List Nid) {tgt : Mgr}, Inv tgt →
+    (∀ v ∈ vs, ∃ n t, (symC n t, v) ∈ src.formulae) →
+    ∀ {r : Except Err (List Nid)} {tgt' : Mgr}, (copySymbols src vs).run tgt = (r, tgt') →
+      Inv tgt' ∧ Ext tgt tgt' ∧ NewCopies src tgt tgt' ∧
+        ∀ vs', r = .ok vs' → All₂ (Copy src tgt') vs vs'
+  | [], tgt, ht, _, r, tgt', hrun => by
+    simp only [copySymbols, pure, Prog.run, Prod.mk.injEq] at hrun
+    obtain ⟨rfl, rfl⟩ := hrun
+    exact ⟨ht, Ext.refl _, NewCopies.refl _ _, fun vs' h => by cases h; exact .nil⟩
+  | v :: t, tgt, ht, hsym, r, tgt', hrun => by
+    obtain ⟨n, ty, hv⟩ := hsym v (by simp)
+    simp only [copySymbols, content?_of_mem hsrc hv, bind] at hrun
+    rw [Prog.run_bind] at hrun
+    cases h1 : (copySymbol (symC n ty)).run tgt with
+    | mk r1 t1 =>
+      have w1 := copySymbol_spec hsrc ht hv h1
+      rw [h1] at hrun
+      have hpos : 0 < tgt.nextId := Nat.zero_lt_of_lt (ht.range _ _ ht.tt).2
+      cases r1 with
+      | error e =>
+        simp only [Prod.mk.injEq] at hrun
+        obtain ⟨rfl, rfl⟩ := hrun
+        exact ⟨w1.1, w1.2.1, w1.2.2.1, by simp⟩
+      | ok v' =>
+        simp only at hrun
+        rw [Prog.run_bind] at hrun
+        cases h2 : (copySymbols src t).run t1 with
+        | mk r2 t2 =>
+          have w2 := copySymbols_spec hsrc t w1.1 (fun x hx => hsym x (List.mem_cons_of_mem _ hx)) h2
+          rw [h2] at hrun
+          cases r2 with
+          | error e =>
+            simp only [Prod.mk.injEq] at hrun
+            obtain ⟨rfl, rfl⟩ := hrun
+            exact ⟨w2.1, w1.2.1.trans w2.2.1, NewCopies.trans w1.1 w2.1 w2.2.1 w1.2.2.1 w2.2.2.1 hpos, by simp⟩
+          | ok t' =>
+            simp only [pure, Prog.run, Prod.mk.injEq] at hrun
+            obtain ⟨rfl, rfl⟩ := hrun
+            refine ⟨w2.1, w1.2.1.trans w2.2.1, NewCopies.trans w1.1 w2.1 w2.2.1 w1.2.2.1 w2.2.2.1 hpos, ?_⟩
+            intro vs' h
+            cases h
+            exact .cons ((w1.2.2.2 v' rfl).1.mono w1.1 w2.1 w2.2.1) (w2.2.2.2 t' rfl)
+
+theorem recSpec_quant {src : Mgr} (hsrc : Inv src) (addr : Nid → Nat) (same : Bool) {nt : Nat}
+    (hnt : nt = NT.FORALL ∨ nt = NT.EXISTS) (body : Nid) (v : Nid) (vs : List Nid) (i : Nid)
+    (hsym : ∀ x ∈ v :: vs, ∃ n t, (symC n t, x) ∈ src.formulae) :
+    RecSpec src addr same ⟨nt, [body], .vars (v :: vs)⟩ i := by
+  intro hc tgt g ht _ hg r tgt' hrun
+  have hrec : reconstruct src addr ⟨nt, [body], .vars (v :: vs)⟩ ([body].map g) =
+      (copySymbols src (v :: vs)).bind fun vs' => mkQuant nt vs' (g body) := by
+    rcases hnt with rfl | rfl <;> simp +decide [reconstruct, bind]
+  rw [show (Content.mk nt [body] (.vars (v :: vs))).args = [body] from rfl, hrec, Prog.run_bind] at hrun
+  cases h1 : (copySymbols src (v :: vs)).run tgt with
+  | mk r1 t1 =>
+    have w1 := copySymbols_spec hsrc (v :: vs) ht hsym h1
+    rw [h1] at hrun
+    have hpos : 0 < tgt.nextId := Nat.zero_lt_of_lt (ht.range _ _ ht.tt).2
+    cases r1 with
+    | error e =>
+      simp only [Prod.mk.injEq] at hrun
+      obtain ⟨rfl, rfl⟩ := hrun
+      exact ⟨w1.1, w1.2.1, w1.2.2.1, by simp⟩
+    | ok vs' =>
+      simp only at hrun
+      have hf := w1.2.2.2 vs' rfl
+      have hne : vs'.isEmpty = false := by
+        cases hf with
+        | cons _ _ => rfl
+      simp only [mkQuant, hne] at hrun
+      have hbody := (hg body (by simp)).mono ht w1.1 w1.2.1
+      have w2 := create_copy₂ (c' := ⟨nt, [g body], .vars vs'⟩) hsrc w1.1 hc
+        (by
+          have hl : vs'.length = (v :: vs).length := (All₂.length_eq hf).symm
+          simp [Content.shape, Payload.erase, List.map_const', hl, List.replicate_succ])
+        (by
+          simpa [Content.ids, Payload.ids] using (All₂.cons hbody hf))
+        hrun
+      exact ⟨w2.1, w1.2.1.trans w2.2.1, NewCopies.trans w1.1 w2.1 w2.2.1 w1.2.2.1 w2.2.2.1 hpos, w2.2.2.2⟩
+
+theorem all₂_append {α β : Type} {R : α → β → Prop} : ∀ {l1 : List α} {l1' : List β} {l2 : List α} {l2' : List β},
+    All₂ R l1 l1' → All₂ R l2 l2' → All₂ R (l1 ++ l2) (l1' ++ l2')
+  | _, _, _, _, .nil, h => h
+  | _, _, _, _, .cons h t, h2 => .cons h (all₂_append t h2)
+
+/-- function applications: the symbol has a function type of the right arity -/
+theorem recSpec_function {src : Mgr} (hsrc : Inv src) (addr : Nid → Nat) (same : Bool) (a : Nid) (args : List Nid) (f : Nid)
+    (i : Nid) {n : String} {rt : Ty} {ps : TyL} (hf : (symC n (.func rt ps), f) ∈ src.formulae)
+    (har : (a :: args).length = ps.length) :
+    RecSpec src addr same ⟨NT.FUNCTION, a :: args, .fn f⟩ i := by
+  intro hc tgt g ht _ hg r tgt' hrun
+  have hrec : reconstruct src addr ⟨NT.FUNCTION, a :: args, .fn f⟩ ((a :: args).map g) =
+      (copySymbol (symC n (.func rt ps))).bind fun f' => mkFunction f' ((a :: args).map g) := by
+    simp +decide [reconstruct, content?_of_mem hsrc hf, bind]
+  rw [show (Content.mk NT.FUNCTION (a :: args) (.fn f)).args = a :: args from rfl, hrec, Prog.run_bind] at hrun
+  cases h1 : (copySymbol (symC n (.func rt ps))).run tgt with
+  | mk r1 t1 =>
+    have w1 := copySymbol_spec hsrc ht hf h1
+    rw [h1] at hrun
+    have hpos : 0 < tgt.nextId := Nat.zero_lt_of_lt (ht.range _ _ ht.tt).2
+    cases r1 with
+    | error e =>
+      simp only [Prod.mk.injEq] at hrun
+      obtain ⟨rfl, rfl⟩ := hrun
+      exact ⟨w1.1, w1.2.1, w1.2.2.1, by simp⟩
+    | ok f' =>
+      simp only at hrun
+      obtain ⟨hcpf, hmemf⟩ := w1.2.2.2 f' rfl
+      have hlen : ((a :: args).map g).length = ps.length := by
+        rw [← har]; simp
+      have hrun' : (create ⟨NT.FUNCTION, (a :: args).map g, .fn f'⟩).run t1 = (r, tgt') := by
+        rw [← hrun]
+        simp only [mkFunction, List.map_cons, List.isEmpty_cons, Bool.false_eq_true, if_false, bind]
+        rw [getC_run (content?_of_mem w1.1 hmemf)]
+        simp only [symC]
+        rw [if_pos (by simpa using hlen)]
+      have hargs : All₂ (Copy src t1) (a :: args) ((a :: args).map g) :=
+        forall₂_of_map g _ (fun x hx => (hg x hx).mono ht w1.1 w1.2.1)
+      have w2 := create_copy₂ (c' := ⟨NT.FUNCTION, (a :: args).map g, .fn f'⟩) hsrc w1.1 hc
+        (by simp [Content.shape, Payload.erase])
+        (by
+          simp only [Content.ids, Payload.ids]
+          exact all₂_append hargs (.cons hcpf .nil))
+        hrun'
+      exact ⟨w2.1, w1.2.1.trans w2.2.1, NewCopies.trans w1.1 w2.1 w2.2.1 w1.2.2.1 w2.2.2.1 hpos, w2.2.2.2⟩
+
+/-- Contents that the public constructors produce and for which the contextualizer's
+    callback is proved here.  Not covered (see `Props/C04.lean`): `TOREAL`, the bit-vector
+    operators whose payload is a computed width (`BV_NOT … BV_ASHR`, `BV_EXTRACT`, rotations,
+    extensions, `BV_CONCAT`), `ARRAY_VALUE`, `DIV`, `POW`. -/
+inductive NormalC (src : Mgr) : Content → Prop
+  | plain {nt : Nat} (h : nt ∈ plainNTs) (args : List Nid) : NormalC src ⟨nt, args, .none⟩
+  | nary {nt : Nat} (h : nt = NT.AND ∨ nt = NT.OR ∨ nt = NT.PLUS ∨ nt = NT.TIMES) (a b : Nid) (t : List Nid) :
+      NormalC src ⟨nt, a :: b :: t, .none⟩
+  | strConcat (a b : Nid) (t : List Nid) : NormalC src ⟨NT.STR_CONCAT, a :: b :: t, .none⟩
+  | algebraic (tag : String) : NormalC src ⟨NT.ALGEBRAIC_CONSTANT, [], .alg tag⟩
+  | bvComp (x y : Nid) : NormalC src ⟨NT.BV_COMP, [x, y], .nums [1]⟩
+  | bvConst {v w : Nat} (h : v < 2 ^ w) : NormalC src ⟨NT.BV_CONSTANT, [], .bv v w⟩
+  | real (q : Rat) : NormalC src ⟨NT.REAL_CONSTANT, [], .rat q⟩
+  | int (n : Int) : NormalC src ⟨NT.INT_CONSTANT, [], .int n⟩
+  | str (x : String) : NormalC src ⟨NT.STR_CONSTANT, [], .str x⟩
+  | bool (b : Bool) : NormalC src ⟨NT.BOOL_CONSTANT, [], .bool b⟩
+  | symbol (n : String) (t : Ty) : NormalC src ⟨NT.SYMBOL, [], .sym n t⟩
+  | not (a : Nid) (hna : ∀ ca, (ca, a) ∈ src.formulae → ca.nodeType ≠ NT.NOT) : NormalC src ⟨NT.NOT, [a], .none⟩
+  | quant {nt : Nat} (hnt : nt = NT.FORALL ∨ nt = NT.EXISTS) (body v : Nid) (vs : List Nid)
+      (hsym : ∀ x ∈ v :: vs, ∃ n t, (symC n t, x) ∈ src.formulae) : NormalC src ⟨nt, [body], .vars (v :: vs)⟩
+  | function (a : Nid) (args : List Nid) (f : Nid) {n : String} {rt : Ty} {ps : TyL}
+      (hf : (symC n (.func rt ps), f) ∈ src.formulae) (har : (a :: args).length = ps.length) :
+      NormalC src ⟨NT.FUNCTION, a :: args, .fn f⟩
+
+theorem recSpec_of_normal {src : Mgr} (hsrc : Inv src) (addr : Nid → Nat) (same : Bool) {c : Content} (i : Nid)
+    (h : NormalC src c) : RecSpec src addr same c i := by
+  cases h with
+  | plain h args => exact recSpec_plain hsrc addr same h args i
+  | nary h a b t => exact recSpec_nary hsrc addr same h a b t i
+  | strConcat a b t => exact recSpec_strConcat hsrc addr same a b t i
+  | algebraic tag => exact recSpec_algebraic hsrc addr same tag i
+  | bvComp x y => exact recSpec_bvComp hsrc addr same x y i
+  | bvConst h => exact recSpec_bvConst hsrc addr same h i
+  | real q => exact recSpec_real hsrc addr same q i
+  | int n => exact recSpec_int hsrc addr same n i
+  | str x => exact recSpec_str hsrc addr same x i
+  | bool b => exact recSpec_bool hsrc addr same b i
+  | symbol n t => exact recSpec_symbol hsrc addr same n t i
+  | not a hna => exact recSpec_not hsrc addr same a i hna
+  | quant hnt body v vs hsym => exact recSpec_quant hsrc addr same hnt body v vs i hsym
+  | function a args f hf har => exact recSpec_function hsrc addr same a args f i hf har
 
 end PySMT.Manager
